@@ -14,6 +14,15 @@ CHECKS = {
  "C16": ("exploration", "reference-model monitor: spec-transliterated and definition-based bin oracles, CIGAR arithmetic oracle",
          "Library End/Len/Bin/Lengths/IsValid and the BAI/CSI bin functions (via verif re-exports) are run on generated records and intervals and compared with two independent formulations; thorough enumerates the BAI tile-pair space for BinFor and all intervals of five small CSI geometries.",
          "OverlappingBinsFor is exhaustive only for spans <= 64 tiles (longer lists sampled); large CSI geometries sampled; B operation follows the library's documented table.", "3 C16"),
+ "C01": ("exploration", "reference-model monitor (byte-buffer model) over generated write/read scripts; race detector; hook-widened schedules",
+         "The real Writer and Reader are driven with generated write scripts and read patterns across level/wc/rd/source-reader kinds; every call result is compared with a byte-buffer model; concurrent configurations are repeated under -race and with seeded yields/sleeps at the library's suspension points, and the number of distinct observed interleavings is reported.",
+         "Schedules are sampled, not enumerated; 'returns' is the Go runtime deadlock detector in plain children.", "3 C01"),
+ "C02": ("exploration", "online checker of a flat-model trace specification over generated Seek/Read histories; race detector; runtime deadlock detector",
+         "Files with arbitrary member layouts come from an independent BGZF encoder; every Seek/Read/ReadByte/Blocked step of a generated history is checked against a flat-data model including LastChunk translation and replay; rd in {0,1,2,3,8}, widened schedules, -race.",
+         "Seek targets restricted to block start + offset <= block length (as the property states); schedules sampled.", "3 C02"),
+ "C03": ("exploration", "differential monitor (cached vs uncached reader in lock-step) plus flat-model checker; race detector; runtime deadlock detector",
+         "The C02 histories with SetCache at arbitrary points are executed in lock-step on a cached and an uncached reader; bytes, EOF condition, error class and raw LastChunk must agree per call and match the flat model, for LRU/FIFO/Random/StatsRecorder, capacities 1..6 and > file, rd<=1 (class A) and rd>1 (class B).",
+         "Cache statistics are not compared; schedules sampled.", "3 C03"),
 }
 NOT_BUILT = "check not built yet in this session; see DESIGN.md section 3 for the planned monitor"
 
